@@ -48,11 +48,9 @@ theorem Inv.of_frame {s s' : State} (h : Inv s) (hq : s'.queue = s.queue) (ho : 
 /-- a many-to-many change touches neither objects, queue, trace nor `saved_objects` -/
 theorem applyLink_frame (s s' : State) (a b : Nat) (add : Bool) (h : applyLink s a b add = .ok s') :
     s'.trace = s.trace ∧ s'.saved = s.saved ∧ s'.queue = s.queue ∧ s'.objs = s.objs ∧ (s.modified = true → s'.modified = true) := by
-  unfold applyLink at h
+  simp only [applyLink] at h
   repeat' split at h
-  all_goals first
-    | cases h
-    | (injection h with h; subst h; simp)
+  all_goals (cases h; try simp)
 
 /-- assigning an attribute of an object that is not pending (loaded / inserted / updated): it becomes 'modified' and is queued -/
 theorem modify_clean (s : State) (o : Nat) (ob : Obj) (hob : s.objs[o]? = some ob) (hnk : kindOf ob.status = none) :
@@ -182,6 +180,14 @@ theorem applyOp_spec (s s' : State) (op : HOp) (h : applyOp s op = .ok s') :
     exact ⟨t, v, ⟨[], by simp [q]⟩, fun p k hp => by rw [hk]; exact hp, fun hi => hi.of_frame q o m⟩
   | unlink a b =>
     obtain ⟨t, v, q, o, m⟩ := applyLink_frame s s' a b false h
+    have hk : ∀ p, s'.kindAt p = s.kindAt p := by intro p; simp [State.kindAt, o]
+    exact ⟨t, v, ⟨[], by simp [q]⟩, fun p k hp => by rw [hk]; exact hp, fun hi => hi.of_frame q o m⟩
+  | linkNewOwner b =>
+    obtain ⟨t, v, q, o, m⟩ := applyLink_frame s s' _ b true h
+    have hk : ∀ p, s'.kindAt p = s.kindAt p := by intro p; simp [State.kindAt, o]
+    exact ⟨t, v, ⟨[], by simp [q]⟩, fun p k hp => by rw [hk]; exact hp, fun hi => hi.of_frame q o m⟩
+  | linkNewItem a =>
+    obtain ⟨t, v, q, o, m⟩ := applyLink_frame s s' a _ true h
     have hk : ∀ p, s'.kindAt p = s.kindAt p := by intro p; simp [State.kindAt, o]
     exact ⟨t, v, ⟨[], by simp [q]⟩, fun p k hp => by rw [hk]; exact hp, fun hi => hi.of_frame q o m⟩
   | modify o =>
@@ -392,10 +398,31 @@ theorem afterLoop_spec (H : Hooks) : ∀ (sv : List (Nat × Kind)) (s s' : State
       refine ⟨i3, v3.trans v2, ?_⟩
       rw [t3, t2]; simp
 
-/-- the trace of one complete round: the before-hooks of a duplicate-free list Q of queued objects, then one statement per object
-    of Q (in the save order S, a permutation of Q), then the after-hooks in the order of the statements -/
+def evLD (p : Nat × Nat) : Event := .linkDel p.1 p.2
+def evLI (p : Nat × Nat) : Event := .linkIns p.1 p.2
+
+/-- the trace of one complete round: the before-hooks of a duplicate-free list Q of queued objects, the deletions of the removed
+    many-to-many link rows R, one statement per object of Q (in the save order S, a permutation of Q), the insertions of the added
+    link rows A, then the after-hooks in the order of the statements -/
 def RoundShape (seg : List Event) : Prop :=
-  ∃ Q S : List (Kind × Nat), (Q.map Prod.snd).Nodup ∧ S.Perm Q ∧ seg = Q.map evB ++ S.map evS ++ S.map evA
+  ∃ (Q S : List (Kind × Nat)) (R A : List (Nat × Nat)), (Q.map Prod.snd).Nodup ∧ S.Perm Q ∧
+    seg = Q.map evB ++ R.map evLD ++ S.map evS ++ A.map evLI ++ S.map evA
+
+theorem saveOne_lk (s s' : State) (o : Nat) (h : saveOne s o = .ok s') : s'.lk = s.lk := by
+  simp only [saveOne] at h
+  repeat' split at h
+  all_goals (cases h; try rfl)
+
+theorem saveAll_lk : ∀ (l : List Nat) (s s' : State), saveAll l s = .ok s' → s'.lk = s.lk := by
+  intro l
+  induction l with
+  | nil => intro s s' h; simp [saveAll] at h; subst h; rfl
+  | cons o rest ih =>
+    intro s s' h
+    simp only [saveAll] at h
+    cases h1 : saveOne s o with
+    | error e => simp [h1] at h
+    | ok s1 => simp only [h1] at h; rw [ih s1 s' h, saveOne_lk s s1 o h1]
 
 theorem keysL_snd (s : State) (l : List Nat) (h : ∀ o ∈ l, ∃ k, s.kindAt o = some k) : (keysL s l).map Prod.snd = l := by
   induction l with
@@ -451,12 +478,14 @@ theorem round_spec (H : Hooks) (ord : List Nat → List Nat) (bfuel : Nat) (s s'
   | ok s1 =>
     simp only [hb] at h
     obtain ⟨hinv1, hsv1, _, _, ht1⟩ := beforeLoop_spec H bfuel 0 s s1 hinv hb
-    obtain ⟨s2, hsave, hq2, ht2, hsv2, hk2, hd2⟩ := savePhase_spec ord hperm s1 hinv1
+    have hinvc : Inv (calcAndRemoveM2m s1) := hinv1.of_same rfl rfl rfl
+    obtain ⟨s2, hsave, hq2, ht2, hsv2, hk2, hd2⟩ := savePhase_spec ord hperm (calcAndRemoveM2m s1) hinvc
+    have hlk2 : s2.lk = (calcAndRemoveM2m s1).lk := saveAll_lk _ _ _ hsave
     simp only [hsave] at h
-    have hinv3 : Inv ({ s2 with queue := [], modified := false, saved := [] } : State) := by
+    have hinv3 : Inv ({ (addM2m s2) with queue := [], modified := false, saved := [] } : State) := by
       refine ⟨?_, by simp [pendingList], ?_, by simp⟩
       · intro o
-        have : ({ s2 with queue := [], modified := false, saved := [] } : State).kindAt o = none := hk2 o
+        have : ({ (addM2m s2) with queue := [], modified := false, saved := [] } : State).kindAt o = none := hk2 o
         simp [this]
       · intro p ob hob hpos
         have := hd2 p ob hob
@@ -466,11 +495,18 @@ theorem round_spec (H : Hooks) (ord : List Nat → List Nat) (bfuel : Nat) (s s'
     refine ⟨hinv', hsv', ?_⟩
     have hpendAll : ∀ o ∈ pendingList s1, ∃ k, s1.kindAt o = some k :=
       fun o ho => (hinv1.mem_iff o).mp ((mem_pendingList s1 o).mp ho)
-    refine ⟨_, ⟨keysL s1 (pendingList s1), keysL s1 (ord (pendingList s1)), ?_, ?_, rfl⟩, ?_⟩
+    refine ⟨_, ⟨keysL s1 (pendingList s1), keysL s1 (ord (pendingList s1)), s1.lk.pendRem, s1.lk.pendAdd, ?_, ?_, rfl⟩, ?_⟩
     · rw [keysL_snd s1 _ hpendAll]; exact hinv1.nodup
     · exact (hperm _).filterMap _
     · rw [ht']
-      simp only [ht2, ht1, hsv2, hsv1, hsv, List.drop_zero, keysOf_eq_keysL, List.nil_append, List.map_map, List.append_assoc]
+      have e1 : (addM2m s2).trace = s2.trace ++ s2.lk.m2mAdd.map evLI := rfl
+      have e2 : (addM2m s2).saved = s2.saved := rfl
+      have e3 : (calcAndRemoveM2m s1).trace = s1.trace ++ s1.lk.pendRem.map evLD := rfl
+      have e4 : (calcAndRemoveM2m s1).lk.m2mAdd = s1.lk.pendAdd := rfl
+      have e5 : (calcAndRemoveM2m s1).saved = s1.saved := rfl
+      have e6 : keysL (calcAndRemoveM2m s1) (ord (pendingList (calcAndRemoveM2m s1))) = keysL s1 (ord (pendingList s1)) := rfl
+      simp only [e1, e2, ht2, e3, hlk2, e4, hsv2, e5, e6, ht1, hsv1, hsv, List.drop_zero, keysOf_eq_keysL, List.nil_append,
+                 List.map_map, List.append_assoc]
       rfl
 
 def Err.isLimit : Err → Bool
@@ -482,17 +518,21 @@ theorem applyOp_no_limit (s : State) (op : HOp) (e : Err) (h : applyOp s op = .e
   | read o => simp [applyOp] at h
   | create => simp [applyOp] at h
   | link a b =>
-    simp only [applyOp] at h; unfold applyLink at h
+    simp only [applyOp, applyLink] at h
     repeat' split at h
-    all_goals first
-      | cases h
-      | (injection h with h; subst h; rfl)
+    all_goals (cases h; try rfl)
   | unlink a b =>
-    simp only [applyOp] at h; unfold applyLink at h
+    simp only [applyOp, applyLink] at h
     repeat' split at h
-    all_goals first
-      | cases h
-      | (injection h with h; subst h; rfl)
+    all_goals (cases h; try rfl)
+  | linkNewOwner b =>
+    simp only [applyOp, applyLink] at h
+    repeat' split at h
+    all_goals (cases h; try rfl)
+  | linkNewItem a =>
+    simp only [applyOp, applyLink] at h
+    repeat' split at h
+    all_goals (cases h; try rfl)
   | modify o =>
     simp only [applyOp] at h
     cases hob : s.objs[o]? with
@@ -613,7 +653,8 @@ theorem flushLoop_spec (H : Hooks) (ord : Nat → List Nat → List Nat) (bfuel 
           | ok s1 =>
             simp only
             obtain ⟨hinv1, _, _, _, _⟩ := beforeLoop_spec H bfuel 0 s s1 hinv hb
-            obtain ⟨s2, hsave, _⟩ := savePhase_spec (ord n) (hperm n) s1 hinv1
+            have hinvc : Inv (calcAndRemoveM2m s1) := hinv1.of_same rfl rfl rfl
+            obtain ⟨s2, hsave, _⟩ := savePhase_spec (ord n) (hperm n) (calcAndRemoveM2m s1) hinvc
             simp only [hsave, afterPhase]
             intro hr
             have := afterLoop_no_limit H _ _ _ hr
@@ -757,5 +798,219 @@ theorem count_le_one_of_nodup {α : Type} [BEq α] [LawfulBEq α] (l : List α) 
       simp [this]
     · have := ih h.2
       simp [hb]; exact this
+
+/-! ### many-to-many links -/
+
+/-- the link bookkeeping between rounds: the collections show the link table minus the pending removals plus the pending additions -/
+structure LinkInv (l : Links) : Prop where
+  view : ∀ p, p ∈ l.view ↔ (p ∈ l.db ∧ p ∉ l.pendRem) ∨ p ∈ l.pendAdd
+  addNew : ∀ p, p ∈ l.pendAdd → p ∉ l.db
+  remOld : ∀ p, p ∈ l.pendRem → p ∈ l.db
+
+structure LK (s : State) : Prop where
+  inv : LinkInv s.lk
+  noLocal : s.lk.m2mAdd = [] ∧ s.lk.m2mRem = []
+  flag : (s.lk.pendAdd ≠ [] ∨ s.lk.pendRem ≠ []) → s.modified = true
+
+theorem LK.of_same {s s' : State} (h : LK s) (hl : s'.lk = s.lk) (hm : s.modified = true → s'.modified = true) : LK s' := by
+  refine ⟨by rw [hl]; exact h.inv, by rw [hl]; exact h.noLocal, ?_⟩
+  rw [hl]; intro hp; exact hm (h.flag hp)
+
+theorem applyLink_lk (s s' : State) (a b : Nat) (add : Bool) (h : applyLink s a b add = .ok s') (hl : LK s) : LK s' := by
+  obtain ⟨⟨hv, ha, hr⟩, hn, hf⟩ := hl
+  simp only [applyLink] at h
+  split at h
+  · cases h
+  split at h
+  · cases h
+  split at h
+  · split at h
+    · cases h; exact ⟨⟨hv, ha, hr⟩, hn, fun _ => rfl⟩
+    · split at h
+      · cases h
+        rename_i hnv hpr
+        simp only [List.contains_eq_mem, decide_eq_true_eq] at hnv hpr
+        refine ⟨⟨?_, ?_, ?_⟩, hn, fun _ => rfl⟩
+        · intro q
+          simp only [List.mem_append, List.mem_singleton, List.mem_filter, bne_iff_ne, ne_eq]
+          by_cases hq : q = (a, b)
+          · subst hq; simp [hr _ hpr]
+          · simp [hq, hv q]
+        · exact ha
+        · intro q hq
+          simp only [List.mem_filter] at hq
+          exact hr q hq.1
+      · cases h
+        rename_i hnv hpr
+        simp only [List.contains_eq_mem, decide_eq_true_eq] at hnv hpr
+        refine ⟨⟨?_, ?_, ?_⟩, hn, fun _ => rfl⟩
+        · intro q
+          simp only [List.mem_append, List.mem_singleton]
+          by_cases hq : q = (a, b)
+          · subst hq; simp
+          · simp [hq, hv q]
+        · intro q hq
+          simp only [List.mem_append, List.mem_singleton] at hq
+          rcases hq with hq | hq
+          · exact ha q hq
+          · subst hq
+            intro hdb
+            exact hnv ((hv _).mpr (Or.inl ⟨hdb, hpr⟩))
+        · exact hr
+  · split at h
+    · cases h; exact ⟨⟨hv, ha, hr⟩, hn, hf⟩
+    · split at h
+      · cases h; exact ⟨⟨hv, ha, hr⟩, hn, fun _ => rfl⟩
+      · split at h
+        · cases h
+          rename_i hpr hnv hpa
+          simp only [List.contains_eq_mem, decide_eq_true_eq, Bool.not_eq_true', decide_eq_false_iff_not, Classical.not_not] at hpr hnv hpa
+          refine ⟨⟨?_, ?_, ?_⟩, hn, fun _ => rfl⟩
+          · intro q
+            simp only [List.mem_filter, bne_iff_ne, ne_eq]
+            by_cases hq : q = (a, b)
+            · subst hq; simp [ha _ hpa]
+            · simp [hq, hv q]
+          · intro q hq
+            simp only [List.mem_filter] at hq
+            exact ha q hq.1
+          · exact hr
+        · cases h
+          rename_i hpr hnv hpa
+          simp only [List.contains_eq_mem, decide_eq_true_eq, Bool.not_eq_true', decide_eq_false_iff_not, Classical.not_not] at hpr hnv hpa
+          refine ⟨⟨?_, ?_, ?_⟩, hn, fun _ => rfl⟩
+          · intro q
+            simp only [List.mem_filter, bne_iff_ne, ne_eq, List.mem_append, List.mem_singleton]
+            by_cases hq : q = (a, b)
+            · subst hq; simp [hpa]
+            · simp [hq, hv q]
+          · exact ha
+          · intro q hq
+            simp only [List.mem_append, List.mem_singleton] at hq
+            rcases hq with hq | hq
+            · exact hr q hq
+            · subst hq
+              rcases (hv _).mp hnv with h1 | h1
+              · exact h1.1
+              · exact absurd h1 hpa
+
+theorem applyOp_lk (s s' : State) (op : HOp) (h : applyOp s op = .ok s') (hl : LK s) : LK s' := by
+  cases op with
+  | read o => simp [applyOp] at h; subst h; exact hl
+  | create => simp [applyOp] at h; subst h; exact hl.of_same rfl (fun _ => rfl)
+  | link a b => exact applyLink_lk s s' a b true h hl
+  | unlink a b => exact applyLink_lk s s' a b false h hl
+  | linkNewOwner b => exact applyLink_lk s s' _ b true h hl
+  | linkNewItem a => exact applyLink_lk s s' a _ true h hl
+  | modify o =>
+    simp only [applyOp] at h
+    repeat' split at h
+    all_goals (cases h; try (first | exact hl.of_same rfl (fun _ => rfl) | exact hl.of_same rfl (fun hm => hm)))
+
+theorem runOps_lk (ops : List HOp) : ∀ (s s' : State), runOps ops s = .ok s' → LK s → LK s' := by
+  induction ops with
+  | nil => intro s s' h hl; simp [runOps] at h; subst h; exact hl
+  | cons op rest ih =>
+    intro s s' h hl
+    simp only [runOps] at h
+    cases ha : applyOp s op with
+    | error e => simp [ha] at h
+    | ok s1 => simp only [ha] at h; exact ih s1 s' h (applyOp_lk s s1 op ha hl)
+
+theorem beforeLoop_lk (H : Hooks) : ∀ (fuel i : Nat) (s s' : State), beforeLoop H fuel i s = .ok s' → LK s → LK s' := by
+  intro fuel
+  induction fuel with
+  | zero => intro i s s' h; simp [beforeLoop] at h
+  | succ fuel ih =>
+    intro i s s' h hl
+    simp only [beforeLoop] at h
+    cases hq : s.queue[i]? with
+    | none => simp only [hq] at h; injection h with h; subst h; exact hl
+    | some x =>
+      cases x with
+      | none => simp only [hq] at h; exact ih _ _ _ h hl
+      | some o =>
+        simp only [hq] at h
+        cases hk : s.kindAt o with
+        | none => simp only [hk] at h; exact ih _ _ _ h hl
+        | some k =>
+          simp only [hk] at h
+          cases hr : runOps (H.before k { s with trace := s.trace ++ [Event.before k o] } o) { s with trace := s.trace ++ [Event.before k o] } with
+          | error e1 => simp [hr] at h
+          | ok s2 =>
+            simp only [hr] at h
+            exact ih _ _ _ h (runOps_lk _ _ _ hr (hl.of_same rfl (fun hm => hm)))
+
+theorem afterLoop_lk (H : Hooks) : ∀ (sv : List (Nat × Kind)) (s s' : State), afterLoop H sv s = .ok s' → LK s → LK s' := by
+  intro sv
+  induction sv with
+  | nil => intro s s' h hl; simp [afterLoop] at h; subst h; exact hl
+  | cons p rest ih =>
+    intro s s' h hl
+    obtain ⟨o, k⟩ := p
+    simp only [afterLoop] at h
+    cases hr : runOps (H.after k { s with trace := s.trace ++ [Event.after k o] } o) { s with trace := s.trace ++ [Event.after k o] } with
+    | error e1 => simp [hr] at h
+    | ok s2 => simp only [hr] at h; exact ih _ _ h (runOps_lk _ _ _ hr (hl.of_same rfl (fun hm => hm)))
+
+/-- the many-to-many phases of a round write exactly the pending link changes: afterwards nothing is pending and the link table
+    equals what the collections show -/
+theorem m2m_round_lk (s1 s2 : State) (hl : LK s1) (h2 : s2.lk = (calcAndRemoveM2m s1).lk) :
+    (addM2m s2).lk.pendAdd = [] ∧ (addM2m s2).lk.pendRem = [] ∧ LinkInv (addM2m s2).lk ∧
+    (addM2m s2).lk.m2mAdd = [] ∧ (addM2m s2).lk.m2mRem = [] ∧
+    (∀ p, p ∈ (addM2m s2).lk.db ↔ p ∈ s1.lk.view) := by
+  obtain ⟨⟨hv, ha, hr⟩, _, _⟩ := hl
+  have hdb : ∀ p, p ∈ (addM2m s2).lk.db ↔ p ∈ s1.lk.view := by
+    intro p
+    simp only [addM2m, h2, calcAndRemoveM2m, List.mem_append, List.mem_filter, List.contains_eq_mem, Bool.not_eq_true',
+               decide_eq_false_iff_not]
+    rw [hv p]
+  refine ⟨by simp [addM2m, h2, calcAndRemoveM2m], by simp [addM2m, h2, calcAndRemoveM2m], ⟨?_, ?_, ?_⟩, rfl, rfl, hdb⟩
+  · intro p
+    have e1 : (addM2m s2).lk.view = s1.lk.view := by simp [addM2m, h2, calcAndRemoveM2m]
+    have e2 : (addM2m s2).lk.pendRem = [] := by simp [addM2m, h2, calcAndRemoveM2m]
+    have e3 : (addM2m s2).lk.pendAdd = [] := by simp [addM2m, h2, calcAndRemoveM2m]
+    rw [e1, e2, e3, hdb p]; simp
+  · intro p hp; simp [addM2m, h2, calcAndRemoveM2m] at hp
+  · intro p hp; simp [addM2m, h2, calcAndRemoveM2m] at hp
+
+theorem round_lk (H : Hooks) (ord : List Nat → List Nat) (bfuel : Nat) (s s' : State) (hl : LK s)
+    (h : round H ord bfuel s = .ok s') : LK s' := by
+  simp only [round] at h
+  cases hb : beforeLoop H bfuel 0 s with
+  | error e => simp [hb] at h
+  | ok s1 =>
+    simp only [hb] at h
+    have hl1 := beforeLoop_lk H bfuel 0 s s1 hb hl
+    cases hs : savePhase ord (calcAndRemoveM2m s1) with
+    | error e => simp [hs] at h
+    | ok s2 =>
+      simp only [hs, afterPhase] at h
+      have h2 : s2.lk = (calcAndRemoveM2m s1).lk := saveAll_lk _ _ _ hs
+      obtain ⟨pa, pr, li, ma, mr, _⟩ := m2m_round_lk s1 s2 hl1 h2
+      refine afterLoop_lk H _ _ s' h ⟨li, ⟨ma, mr⟩, ?_⟩
+      intro hp
+      rcases hp with hp | hp
+      · exact absurd pa hp
+      · exact absurd pr hp
+
+theorem flushLoop_lk (H : Hooks) (ord : Nat → List Nat → List Nat) (bfuel : Nat) :
+    ∀ (n : Nat) (s s' : State), LK s → flushLoop H ord bfuel n s = .ok s' → LK s' := by
+  intro n
+  induction n with
+  | zero =>
+    intro s s' hl h
+    simp only [flushLoop] at h
+    split at h
+    · cases h
+    · cases h; exact hl
+  | succ n ih =>
+    intro s s' hl h
+    simp only [flushLoop] at h
+    split at h
+    · cases h; exact hl
+    · cases hr : round H (ord n) bfuel s with
+      | error e => simp [hr] at h
+      | ok s1 => simp only [hr] at h; exact ih s1 s' (round_lk H (ord n) bfuel s s1 hl hr) h
 
 end PonyVerif.Model.Hooks
